@@ -1,5 +1,5 @@
 """What MANIFEST.json claims, per property (edited as the framework grows)."""
-FIX_COMMITS = ["4727107", "486f7ce", "d05ddbd", "f423e4b", "7fe0d0d", "5df9647", "d27b645", "987e38c", "2cef112", "982202e", "f86aa9e", "c129ca9"]
+FIX_COMMITS = ["4727107", "486f7ce", "d05ddbd", "f423e4b", "7fe0d0d", "5df9647", "d27b645", "987e38c", "2cef112", "982202e", "f86aa9e", "c129ca9", "e8515c9", "341aea1", "515d88c"]
 
 ENGINE_NOTE = ("Trusted: Coq 8.16.1 kernel (vm_compute for table obligations; no axioms: every theorem is "
                "'Closed under the global context'); tools/translate.py (reflective dump of the live classes, "
@@ -229,4 +229,18 @@ CLAIMED["C16"] = dict(
          "of the result tree is not a theorem (correspondence); the contents of a table and the lookup in "
          "Intrinsic_Function_Reference.match are statement-level code, checked end to end only.",
     technique="Rocq proof (scope-forest theorem for the table bookkeeping by induction over forests; engine K3; parse-cache once-ness) + table-structure correspondence + ground-truth search over generated scope nests")
+CLAIMED["C19"] = dict(
+    design_ref="DESIGN.md 4 (C19)",
+    text="Theorem (every statement-level oracle, every nesting, shared DO labels included): the fparser1 block matcher "
+         "(BeginStatement.fill / process_subitem, Do.process_subitem) keeps every statement exactly once and in order -- "
+         "flatten(content) ++ unread = input -- so regenerated source lists the input's statements one to one; the live "
+         "variant of Do.process_subitem is probed on every run and the duplicating variant (the behaviour before the "
+         "repair) is refuted by a computed witness. Tie: extracted model vs fparser.one on generated programs, with the "
+         "real run's statement-level decisions as oracle: complete nesting compared. Search: generated F77/F90-subset "
+         "programs x free/fixed x analyze: second round identical, same nesting (also against the nesting known by "
+         "construction), statements one to one, every expression text and label carried over.",
+    note="Trusted: Coq kernel; tools/translate_one.py (probe); the recording oracle of tools/one_corr.py. Partial: the "
+         "~150 per-statement parsers/printers of fparser1 are not modelled (end-to-end only); statements marked 'ignore' "
+         "(the type prefix of a FUNCTION statement) are excluded by hypothesis.",
+    technique="Rocq proof (block matcher conserves the statement sequence, induction on fuel) + probe-selected variant + model/fparser1 nesting correspondence + round-trip search over a generated F77/F90 subset")
 NOT_CLAIMED = {}
